@@ -191,13 +191,14 @@ type scenario struct {
 	Faults     int
 	Bound      int
 	NoCheck    bool // NoConsistencyCheck option
+	LagRoot    bool  // the destination's signer lags throughout: its root never moves past the initial tree (the canonical answer to a root read is the stale one)
 	Quota      int   // the destination's first Quota answers to AddSequencedLeaves are ResourceExhausted by default (a quota that stays exhausted for a while): the back-off runs through 1 s, 3 s, 9 s, 27 s
 	End        int64 // FetcherOptions.EndIndex; only set in continuous scenarios, where it is documented as ignored
 }
 
 func (s scenario) String() string {
 	return fmt.Sprintf("N=%d dest=%s batch=%d fetchers=%d submitters=%d chan=%d cont=%v grow=%v id=%s mode=%s restarts=%d faults=%d nocheck=%v bound=%d end_index=%d",
-		s.N, s.Dest, s.Batch, s.Fetchers, s.Submitters, s.Chan, s.Continuous, s.Grow, s.IDFunc, s.Mode, s.Restarts, s.Faults, s.NoCheck, s.Bound, s.End) + fmt.Sprintf(" quota_streak=%d", s.Quota)
+		s.N, s.Dest, s.Batch, s.Fetchers, s.Submitters, s.Chan, s.Continuous, s.Grow, s.IDFunc, s.Mode, s.Restarts, s.Faults, s.NoCheck, s.Bound, s.End) + fmt.Sprintf(" quota_streak=%d lagging_destination_root=%v", s.Quota, s.LagRoot)
 }
 
 // gated HTTP source
@@ -281,6 +282,11 @@ func (s srcRT) RoundTrip(req *http.Request) (*http.Response, error) {
 	case "get-sth":
 		if a.kind == "badsig" {
 			return mk(200, sthBody(s.w.size, true))
+		}
+		if a.kind == "stale" {
+			// an older, genuine tree head (a front end of the source that lags): a.n entries
+			s.w.sthServed = append(s.w.sthServed, a.n)
+			return mk(200, sthBody(a.n, false))
 		}
 		s.w.sthServed = append(s.w.sthServed, s.w.size)
 		return mk(200, sthBody(s.w.size, false))
@@ -569,8 +575,12 @@ func runScenario(sc scenario) func(t *testing.T, x *gate.Exec) {
 				case "root":
 					// a pass begins by reading the destination root: whatever batch of an earlier pass was waiting out a
 					// ResourceExhausted back-off has been abandoned with that pass (cancel, mastership loss, restart)
-					add(p.Key+" <- integrate+root", base, func() { clear(reOut); env.Answer(p, "integrate") })
-					add(p.Key+" <- stale root (signer lags)", base+1, func() { clear(reOut); staleRoots++; env.Answer(p, "stale") })
+					if sc.LagRoot {
+						add(p.Key+" <- stale root (signer lags)", base, func() { clear(reOut); env.Answer(p, "stale") })
+					} else {
+						add(p.Key+" <- integrate+root", base, func() { clear(reOut); env.Answer(p, "integrate") })
+						add(p.Key+" <- stale root (signer lags)", base+1, func() { clear(reOut); staleRoots++; env.Answer(p, "stale") })
+					}
 					fault("error", "error")
 				case "add":
 					batch := p.Key[:strings.LastIndex(p.Key, "#")]
@@ -620,6 +630,20 @@ func runScenario(sc scenario) func(t *testing.T, x *gate.Exec) {
 								w.mu.Unlock()
 								env.Answer(p, srcAnswer{kind: "ok"})
 							})
+						}
+						// an older genuine tree head than one already served (continuous mode: the position never moves backwards)
+						if sc.Continuous && faults > 0 {
+							w.mu.Lock()
+							older := -1
+							for _, n := range w.sthServed {
+								if n < w.size && n > older {
+									older = n
+								}
+							}
+							w.mu.Unlock()
+							if older >= 0 {
+								fault(fmt.Sprintf("stale STH(%d)", older), srcAnswer{kind: "stale", n: older})
+							}
 						}
 						fault("STH with bad signature", srcAnswer{kind: "badsig"})
 						fault("500", srcAnswer{kind: "500"})
@@ -789,6 +813,24 @@ func oracle(sc scenario, x *gate.Exec, w *world, dlog *reflog.Log, runs []runRes
 			}
 		}
 	}
+	// O4b: within one run the controller's position only moves forward: no index is stored twice by the same run
+	// (restarts and regained mastership begin again from the destination's root, which may lag: excluded)
+	if sc.Mode == "run" && len(runs) == 1 {
+		okAdds := map[int64]int{}
+		for ai, a := range w.addAnswers {
+			if a == "ok" && ai < len(w.adds) {
+				for _, lf := range w.adds[ai].Leaves {
+					okAdds[lf.LeafIndex]++
+				}
+			}
+		}
+		for i, n := range okAdds {
+			if n > 1 {
+				x.Violation("index-submitted-again-by-the-same-run", "%v: index %d was accepted by the destination %d times within one run", sc, i, n)
+				break
+			}
+		}
+	}
 	// O4: ResourceExhausted is retried with the same request
 	for ai, a := range w.addAnswers {
 		if a != "exhausted" {
@@ -955,6 +997,11 @@ func scenarios(th bool) []scenario {
 	out = append(out, scenario{N: 2, Dest: "empty", Batch: 2, Fetchers: 1, Submitters: 1, Chan: 1, Continuous: true, Grow: []int{1, 2}, IDFunc: "index", Mode: "run", Faults: 1, Bound: 1, End: 3})
 	out = append(out, scenario{N: 2, Dest: "fork2", Batch: 2, Fetchers: 1, Submitters: 1, Chan: 1, Continuous: true, IDFunc: "cert", Mode: "run", Faults: 1, Bound: 1})
 	out = append(out, scenario{N: 2, Dest: "fork2", Batch: 1, Fetchers: 1, Submitters: 1, IDFunc: "cert", Mode: "run", Restarts: 1, Faults: 1, Bound: 1})
+	// a destination whose signer lags throughout, and a source front end that serves an older tree head now and then
+	for _, fs := range [][2]int{{1, 1}, {2, 2}} {
+		out = append(out, scenario{N: 2, Dest: "empty", Batch: 2, Fetchers: fs[0], Submitters: fs[1], Chan: 1, Continuous: true, Grow: []int{2, 1}, IDFunc: "cert", Mode: "run", Faults: 1, Bound: 1, LagRoot: true})
+		out = append(out, scenario{N: 3, Dest: "prefix1", Batch: 1, Fetchers: fs[0], Submitters: fs[1], Continuous: true, Grow: []int{2}, IDFunc: "index", Mode: "run", Faults: 1, Bound: 1, LagRoot: true})
+	}
 	// worker counts left out of the configuration
 	for _, fs := range [][2]int{{0, 0}, {1, 0}, {2, 0}, {0, 1}, {0, 2}} {
 		out = append(out, scenario{N: 4, Dest: "empty", Batch: 2, Fetchers: fs[0], Submitters: fs[1], Chan: 2, IDFunc: "cert", Mode: "run", Faults: 1, Bound: 1})
